@@ -18,4 +18,9 @@ Hi == IF TLe(D0, D1) THEN D1 ELSE D0
 Obs == [i \in 1..Len(T.ticks) |-> I2(T.ticks[i])]
 Drift_ModelExplainsTicks == (T.kind = "tticks" /\ T.err = "" /\ Lo # Hi) =>
     \E me \in TickMethods(Lo, Hi, T.m) : Ticks(Lo, Hi, me) = Obs
+N2(x) == <<x[1], x[2]>>
+NObs == IF TLe(N2(T.niced[1]), N2(T.niced[2])) THEN <<N2(T.niced[1]), N2(T.niced[2])>> ELSE <<N2(T.niced[2]), N2(T.niced[1])>>
+Drift_ModelExplainsNice == (T.kind = "tnice" /\ T.err = "" /\ Lo # Hi) =>
+    /\ T.niced[1][3] = 0 /\ T.niced[2][3] = 0
+    /\ NObs \in NiceDomains(Lo, Hi, T.m)
 =============================================================================
